@@ -263,7 +263,8 @@ package field
 //@   props C12
 //@   mode pow
 //@   requires wf(x)
-//@   ensures pw: wf(z) && fv(z) == fpow(old(fv(x)), P - 2)
+//@   proves pw: fv(z) == fpow(old(fv(x)), P - 2)
+//@   ensures wf: wf(z)
 //@   derives inv: fv(z) == finv(old(fv(x))) by fermat_inv(old(fv(x)))
 //@   modifies *z
 //@   returns z
